@@ -6,6 +6,7 @@
  "replace": [],
  "annotate": ["crypto/crypto_aesctr.c", "crypto/crypto_aesctr_shared.c"],
  "defines": ["VERIF_HALLOC"],
+ "matrix": {"BUFMODE": [0, 1, 2, 3]},
  "timeout": 300,
  "assumptions": ["buffer objects <= CTR_MAXLEN (64) bytes; the loop itself is closed by a loop contract"]
 }
@@ -24,26 +25,37 @@ h_use(void)
 	IN(size_t, len);
 	__CPROVER_assume(len <= CTR_MAXLEN);
 	CTR_MK_BUFS(in, out, len);
-	g_ctr_in = in;
-	g_ctr_out = out;
+	CTR_CALL(in, out, len);			/* ghost arguments: the buffers of the public call */
+	IN(size_t, off0);			/* the cursor is anywhere inside them */
+	__CPROVER_assume(off0 <= len);
 	IN(size_t, nbytes);
 	IN(size_t, bytemod);
-	const uint8_t * inp = in;
-	uint8_t * outp = out;
-	size_t l = len;
+	const uint8_t * inp = in + off0;
+	uint8_t * outp = out + off0;
+	size_t l = len - off0;
 	uint64_t ctr0 = S->bytectr;
-	uint8_t inb = (g_i < nbytes && nbytes <= len) ? in[g_i] : 0;
+	uint8_t inb = (g_i < len) ? in[g_i] : 0;
 
 	crypto_aesctr_stream_cipherblock_use(S, &inp, &outp, &l, nbytes, bytemod);
 
 	/* the obligation once more in plain C over the harness's own view of the objects */
-	__CPROVER_assert(inp == in + nbytes && outp == out + nbytes && l == len - nbytes, "cursor advanced by nbytes");
+	__CPROVER_assert(inp == in + off0 + nbytes && outp == out + off0 + nbytes && l == len - off0 - nbytes, "cursor advanced by nbytes");
 	__CPROVER_assert(S->bytectr == ctr0 + nbytes, "stream position advanced by nbytes");
-	if (g_i < nbytes)
-		__CPROVER_assert(out[g_i] == (inb ^ S->buf[bytemod + g_i]), "out = in0 ^ keystream block byte");
-	VCOVER(nbytes == 16 && bytemod == 0 && bufmode == 1 && g_i == 15);
-	VCOVER(nbytes == 3 && bytemod == 13 && bufmode == 0 && g_i == 2);
+	if (g_i >= off0 && g_i - off0 < nbytes)
+		__CPROVER_assert(out[g_i] == (inb ^ S->buf[bytemod + (g_i - off0)]), "out = in0 ^ keystream block byte");
+	else if (g_i < len && bufmode != 1)
+		__CPROVER_assert(in[g_i] == inb, "input outside the consumed range untouched");
+#if BUFMODE == 1
+	VCOVER(nbytes == 16 && bytemod == 0 && bufmode == 1 && g_i == off0 + 15 && off0 == 7);
+#endif
+#if BUFMODE == 0
+	VCOVER(nbytes == 3 && bytemod == 13 && bufmode == 0 && g_i == 2 && off0 == 0);
+#endif
 	VCOVER(nbytes == 0);
-	VCOVER(nbytes == 5 && bufmode == 2 && g_i == 0);
-	VCOVER(nbytes == 5 && bufmode == 3 && g_i == 4);
+#if BUFMODE == 2
+	VCOVER(nbytes == 5 && bufmode == 2 && g_i == off0 && off0 == len - 5);
+#endif
+#if BUFMODE == 3
+	VCOVER(nbytes == 5 && bufmode == 3 && g_i == off0 + 4);
+#endif
 }
